@@ -272,6 +272,11 @@ def _print(E, s, args, kw):
 
 def _type(E, s, args, kw):
     (v,) = args
+    if isinstance(v, SOpt):
+        out = []
+        for s2, isn in E.split(s, v.isnone):
+            out.extend(_type(E, s2, [None if isn else v.val], kw))
+        return out
     tn = class_name_of(E, s, v)
     if isinstance(tn, ClassRef):
         return ok(s, tn)
@@ -506,6 +511,12 @@ def _getattr(E, s, v, attr):
             return r
     if isinstance(v, Ref):
         c = s.cell(v)
+        if isinstance(c, ObjCell) and c.cls == "SymList" and attr == "append":
+            def sym_append0(E_, s_, a, k):
+                cc = s_.cell(v)
+                s_.set_cell(v, cc.with_attr("__len__", mk_int(int_term(cc.attrs["__len__"]) + 1)))
+                return ok(s_, None)
+            return ok(s, method("symlist.append", sym_append0))
         if isinstance(c, ObjCell):
             if attr in c.attrs:
                 return ok(s, c.attrs[attr])
@@ -540,6 +551,12 @@ def _getattr(E, s, v, attr):
             return None
         if isinstance(c, ListCell):
             return list_method(E, s, v, attr)
+        if isinstance(c, ObjCell) and c.cls == "SymList" and attr == "append":
+            def sym_append(E_, s_, a, k):
+                cc = s_.cell(v)
+                s_.set_cell(v, cc.with_attr("__len__", mk_int(int_term(cc.attrs["__len__"]) + 1)))
+                return ok(s_, None)
+            return ok(s, method("symlist.append", sym_append))
         if isinstance(c, DictCell):
             return dict_method(E, s, v, attr)
         return None
